@@ -153,7 +153,8 @@ static int icmd_pos;		/* icmd[] position */
 void term_push(char *s, int n)
 {
 	n = MIN(n, sizeof(ibuf) - ibuf_cnt);
-	memcpy(ibuf + ibuf_cnt, s, n);
+	memmove(ibuf + ibuf_pos + n, ibuf + ibuf_pos, ibuf_cnt - ibuf_pos);
+	memcpy(ibuf + ibuf_pos, s, n);
 	ibuf_cnt += n;
 }
 
